@@ -177,6 +177,7 @@ def c05_rules():
         lambda prog, tier: inval.run_gate(prog, eff(prog)),
         lambda prog, tier: inval.run_invalfn(prog),
         lambda prog, tier: inval.run_coupd(prog, eff(prog)),
+        lambda prog, tier: inval.run_coupd_sense(prog, eff(prog)),
         lambda prog, tier: verdict.run(prog),
         lambda prog, tier: djsym.run_nbsym(prog),
     ]
